@@ -1,4 +1,6 @@
 import Falcon.Props.C02
+import Falcon.Props.C07
+import Falcon.Lemmas.SignAlg
 import Falcon.Model.SignSkel
 import Mathlib.Tactic.Ring
 import Mathlib.Tactic.LinearCombination
@@ -85,6 +87,103 @@ theorem signWith_ok_inside_bound (chk : Bool) (f g cF cG : List Int) (msg salt :
       SignSkel.normSq (SignSkel.s2Of 512 f cF z0 z1) > ((34034726 : Nat) : Int)
   · rw [if_pos hb] at h; simp at h
   · omega
+
+/-! ### the list-level theorem: whatever the sampler chose, what `sign` emits is accepted -/
+
+private theorem sq_le_normSq : ∀ (l : List Int) (x : Int), x ∈ l → x * x ≤ SignSkel.normSq l := by
+  intro l
+  induction l with
+  | nil => intro x hx; simp at hx
+  | cons y ys ih =>
+    intro x hx
+    simp only [SignSkel.normSq, List.map_cons, List.sum_cons]
+    have hys : 0 ≤ SignSkel.normSq ys := by
+      unfold SignSkel.normSq
+      apply List.sum_nonneg
+      intro z hz
+      simp only [List.mem_map] at hz
+      obtain ⟨w, _, rfl⟩ := hz
+      exact mul_self_nonneg w
+    have hy : 0 ≤ y * y := mul_self_nonneg y
+    rcases List.mem_cons.mp hx with h | h
+    · subst h; unfold SignSkel.normSq at hys; omega
+    · have := ih x h; unfold SignSkel.normSq at this; omega
+
+private theorem centred_new (x : Int) :
+    C02.centred (Zq.new x) = (let r := x % 12289; if r > 6144 then r - 12289 else r) := by
+  have h0 : 0 ≤ x % 12289 := Int.emod_nonneg x (by decide)
+  have hc : ((Zq.new x : Nat) : Int) = x % 12289 := by
+    simp only [Zq.new, Zq.q, Gen.q]; omega
+  simp only [C02.centred]
+  by_cases hg : Zq.new x > 6144
+  · have : x % 12289 > 6144 := by omega
+    simp [hg, this, hc]
+  · have : ¬ x % 12289 > 6144 := by omega
+    simp [hg, this, hc]
+
+/-- **every honest signature verifies** (integer core, list level): for every n = 2^d ≤ 1024, every key
+    (f, g, F, G) whose public polynomial h satisfies h⋆f = g and h⋆F = G modulo q, every hashed point cc and
+    EVERY lattice point (z0, z1) the sampler may return: if the exact pair (s1, s2) is within the bound and s2
+    fits the byte budget — the two conditions under which `sign` stops retrying — then the emitted bytes are
+    accepted by `verify`, in both build modes -/
+theorem honest_signature_verifies (chk : Bool) (d : Nat) (hd : d ≤ 10) (P : Verify.Params)
+    (f g cF cG z0 z1 : List Int) (h cc s : List Nat) (L : Nat)
+    (lf : f.length = 2 ^ d) (lg : g.length = 2 ^ d) (lF : cF.length = 2 ^ d) (lG : cG.length = 2 ^ d)
+    (l0 : z0.length = 2 ^ d) (l1 : z1.length = 2 ^ d) (lh : h.length = 2 ^ d) (lc : cc.length = 2 ^ d)
+    (hk1 : Ntt.negacyc (2 ^ d) h (Ntt.toZq f) = Ntt.toZq g)
+    (hk2 : Ntt.negacyc (2 ^ d) h (Ntt.toZq cF) = Ntt.toZq cG)
+    (hbound : P.sigBound ≤ 70265242)
+    (hnorm : SignSkel.normSq (SignSkel.s1Of (2 ^ d) g cG z0 z1 cc) + SignSkel.normSq (SignSkel.s2Of (2 ^ d) f cF z0 z1)
+        ≤ (P.sigBound : Int))
+    (hfit : Spec.compressRef (SignSkel.s2Of (2 ^ d) f cF z0 z1) L = some s) :
+    Verify.verifyCore chk P (2 ^ d) cc s h = .ok true := by
+  have hn : 0 < 2 ^ d := Nat.pow_pos (by decide)
+  -- s2 has n coefficients, all far below the codec's cap
+  have n0f := RingZ.negacyc_length (2 ^ d) hn z0 f lf
+  have n1F := RingZ.negacyc_length (2 ^ d) hn z1 cF lF
+  have ls2 : (SignSkel.s2Of (2 ^ d) f cF z0 z1).length = 2 ^ d := by
+    simp [SignSkel.s2Of, SignSkel.negL, SignSkel.addL, List.length_zipWith, n0f, n1F]
+  have hs1nn : 0 ≤ SignSkel.normSq (SignSkel.s1Of (2 ^ d) g cG z0 z1 cc) := by
+    unfold SignSkel.normSq
+    apply List.sum_nonneg
+    intro z hz
+    simp only [List.mem_map] at hz
+    obtain ⟨w, _, rfl⟩ := hz
+    exact mul_self_nonneg w
+  have hsmall : ∀ x ∈ SignSkel.s2Of (2 ^ d) f cF z0 z1, x.natAbs < 12160 := by
+    intro x hx
+    have h1 := sq_le_normSq _ x hx
+    by_contra hc
+    have := (C02.cap_is_harmless x (by omega)).1
+    omega
+  -- the body decodes to s2 (C07) …
+  obtain ⟨hdec, _, hwf⟩ := C07.compress_roundtrip _ L s hsmall hfit
+  rw [ls2] at hdec
+  -- … so verify computes the specification's test on s2 (C02) …
+  rw [C02.verifyCore_eq_algorithm16 chk d hd P cc s h hwf lc lh]
+  simp only [C02.specVerify, hdec, C02.specAccept]
+  -- … whose first vector is s1 reduced mod q (coset identity), and centring only shrinks it
+  have hco := Ntt.coset_lists d hd f g cF cG z0 z1 h cc lf lg lF lG l0 l1 lh lc hk1 hk2
+  have hmap : (SignSkel.s2Of (2 ^ d) f cF z0 z1).map Zq.new = Ntt.toZq (SignSkel.s2Of (2 ^ d) f cF z0 z1) := rfl
+  rw [hmap, hco]
+  have hcent : (Ntt.toZq (SignSkel.s1Of (2 ^ d) g cG z0 z1 cc)).map C02.centred =
+      (SignSkel.s1Of (2 ^ d) g cG z0 z1 cc).map (fun x => let r := x % 12289; if r > 6144 then r - 12289 else r) := by
+    simp only [Ntt.toZq, List.map_map]
+    apply List.map_congr_left
+    intro x _
+    exact centred_new x
+  rw [hcent]
+  have hle := centred_norm_le (SignSkel.s1Of (2 ^ d) g cG z0 z1 cc) _ rfl
+  have e1 : ∀ l : List Int, C02.normSq l = SignSkel.normSq l := fun _ => rfl
+  rw [e1, e1]
+  congr 1
+  simp only [decide_eq_true_eq]
+  exact Int.le_trans (Int.add_le_add_right hle _) hnorm
+
+/-- non-vacuity of `honest_signature_verifies`: a degree-2 key with h·f = g, h·F = G meets every hypothesis -/
+example : Verify.verifyCore true ⟨2, 1, 100⟩ (2 ^ 1) [5, 7] [1, 128, 64] [3, 0] = .ok true :=
+  honest_signature_verifies true 1 (by decide) ⟨2, 1, 100⟩ [1, 0] [3, 0] [0, 1] [0, 3] [1, 0] [0, 2] [3, 0] [5, 7]
+    [1, 128, 64] 3 rfl rfl rfl rfl rfl rfl rfl rfl (by decide) (by decide) (by decide) (by decide) (by decide)
 
 /-- non-vacuity of the coset identity: an instance over the integers (f = 1, g = 3, F = 2, G = 6: f·G = g·F) -/
 example : (5 : Int) - (-(2 * 1 + 7 * 2)) * (3 * 1) = 5 + 2 * 3 + 7 * 6 := by decide
